@@ -23,13 +23,17 @@ func (c *Client) Release() {
 	}
 
 	client := c.client()
+	res := c.res
+	// Handle is released, repeated Release is no-op and should not affect
+	// next holder of connection.
+	c.res = nil
 
-	if client.IsClosed() || time.Since(c.res.CreationTime()) > c.p.options.MaxConnLifetime {
-		c.res.Destroy()
+	if client.IsClosed() || time.Since(res.CreationTime()) > c.p.options.MaxConnLifetime {
+		res.Destroy()
 		return
 	}
 
-	c.res.Release()
+	res.Release()
 }
 
 func (c *Client) Do(ctx context.Context, q ch.Query) (err error) {
